@@ -274,6 +274,17 @@ def check_pure(case):
         return [('C16-to_mllp-raises:%s' % type(e).__name__, str(e)[:200])]
     if ml != '\x0b' + er7 + '\r\x1c\r':
         out.append(('C16-to_mllp-framing', '%r' % ml[:120]))
+    # ... also when the message ends with a group that holds nothing (its ER7 text then ends with a separator of its own)
+    try:
+        from hl7apy.core import Group
+        gs = [n for n, r, card, kd in T.struct_children(T.message_ref(m.version, case.get('structure') or m.name)) if kd == 'GRP']
+        if gs:
+            m.add(Group(gs[-1], version=m.version, validation_level=2))
+            er7b, mlb = m.to_er7(), m.to_mllp()
+            if mlb != '\x0b' + er7b + '\r\x1c\r':
+                out.append(('C16-to_mllp-framing:message-ending-with-an-empty-group', 'to_er7 %r, to_mllp %r' % (er7b[-30:], mlb[-34:])))
+    except Exception as e:
+        out.append(('C16-to_mllp-raises:%s' % type(e).__name__, 'with an empty group added: ' + str(e)[:200]))
     # the extractor used by the server, on a handler object that is set up but not connected
     h_ = MLLPRequestHandler.__new__(MLLPRequestHandler)
 
